@@ -116,7 +116,11 @@ func (gm *gameMon) isolation(except *track, op string) {
 		s := adapt.TakeSnap(o.b)
 		gm.c.Eval(1)
 		if d := s.Diff(o.last); d != "" {
-			gm.c.Violate("history:isolation", "%s on track %d changed track %d: %s; %s", op, except.id, o.id, d, gm.desc(o))
+			on := -1
+			if except != nil {
+				on = except.id
+			}
+			gm.c.Violate("history:isolation", "%s on track %d changed track %d: %s; %s", op, on, o.id, d, gm.desc(o))
 			o.last = s
 		}
 	}
@@ -444,10 +448,89 @@ func (gm *gameMon) runGame(r *rand.Rand, zt *board.ZobristTable, start ref.Pos, 
 	gm.continueGame(r, o)
 }
 
+// queries calls the read-only part of the board and position API on a track (any of its users may do so at
+// any time: evaluators, move filters, drivers). The answers about check and mate are compared with the
+// rules, and nothing any board reports may change.
+func (gm *gameMon) queries(t *track, r *rand.Rand) {
+	c := gm.c
+	before := adapt.TakeSnap(t.b)
+	pos := t.b.Position()
+	turn := t.b.Turn()
+	white := t.g.Cur.White
+	nLegal := len(t.g.Cur.LegalMoves())
+	inCheck := t.g.Cur.InCheck(white)
+	for k := 0; k < 1+r.Intn(3); k++ {
+		switch r.Intn(10) {
+		case 0:
+			if got := pos.IsChecked(turn); got != inCheck {
+				c.Violate("query:ischecked", "IsChecked(%v) = %v, the rules say %v: %s", turn, got, inCheck, gm.desc(t))
+			}
+			pos.IsChecked(turn.Opponent())
+		case 1:
+			if got := pos.IsCheckMate(turn); got != (inCheck && nLegal == 0) {
+				c.Violate("query:ischeckmate", "IsCheckMate(%v) = %v with %d legal moves, in check %v: %s", turn, got, nLegal, inCheck, gm.desc(t))
+			}
+			pos.IsCheckMate(turn.Opponent())
+		case 2:
+			if got := len(pos.LegalMoves(turn)); got != nLegal {
+				c.Violate("query:legalmoves", "LegalMoves(%v) lists %d moves, the rules %d: %s", turn, got, nLegal, gm.desc(t))
+			}
+		case 3:
+			pos.PseudoLegalMoves(turn)
+			pos.PseudoLegalMoves(turn.Opponent())
+		case 4:
+			sq := board.Square(r.Intn(64))
+			pos.IsAttacked(board.White, sq)
+			pos.IsDefended(board.Black, sq)
+			pos.Square(sq)
+			pos.IsEmpty(sq)
+		case 5:
+			pos.HasInsufficientMaterial()
+			_ = pos.String()
+			pos.Rotated()
+			pos.Castling()
+			pos.EnPassant()
+		case 6:
+			pos.KingSquare(turn)
+			pos.PieceSquares(turn, board.Pawn)
+			pos.All()
+			pos.Color(turn.Opponent())
+		case 7:
+			t.b.LastMove()
+			t.b.SecondToLastMove()
+			t.b.HasMoved(1 + r.Intn(20))
+			t.b.HasCastled(turn)
+		case 8:
+			_ = t.b.String()
+			t.b.Result()
+			t.b.Hash()
+			t.b.NoProgress()
+		default:
+			// a would-be successor is computed and dropped (what a search does before PushMove)
+			for _, m := range pos.PseudoLegalMoves(turn) {
+				if np, ok := pos.Move(m); ok {
+					np.IsChecked(turn.Opponent())
+					break
+				}
+			}
+		}
+	}
+	c.Eval(1)
+	c.Count("query_rounds", 1)
+	if d := adapt.TakeSnap(t.b).Diff(before); d != "" {
+		c.Violate("query:not-read-only", "read-only queries changed what the board reports: %s; %s", d, gm.desc(t))
+	}
+	gm.isolation(nil, "queries")
+}
+
 // continueGame runs the randomised session on the tracks already set up.
 func (gm *gameMon) continueGame(r *rand.Rand, o gameOpts) {
+	probing := r.Intn(2) == 0 // half of the sessions also use the read-only API between the operations
 	for step := 0; step < o.plies; step++ {
 		t := gm.tracks[r.Intn(len(gm.tracks))]
+		if probing && r.Intn(2) == 0 {
+			gm.queries(gm.tracks[r.Intn(len(gm.tracks))], r)
+		}
 		x := r.Float64()
 		switch {
 		case x < o.popProb:
